@@ -269,7 +269,7 @@ void h_write_magic(void) {
   __CPROVER_assert(st != CARQUET_OK || G_io_failed == failed0, "OK => no sink failure during write_magic");
   __CPROVER_assert(st != CARQUET_OK || G_bytes_accepted - acc0 == 4, "OK => all 4 magic bytes accepted");
   __CPROVER_assert(st == CARQUET_OK || st == CARQUET_ERROR_FILE_WRITE, "failure is reported as FILE_WRITE");
-  if (st == CARQUET_OK) CQV_CANARY("write_magic can succeed"); else CQV_CANARY("write_magic can fail");
+  if (G_io_failed == failed0) CQV_CANARY("sink can accept the magic"); else CQV_CANARY("sink can fail during write_magic");
   CQV_CANARY("write_magic harness end");
 }
 
@@ -286,8 +286,8 @@ void h_ensure_header(void) {
                    "OK on a fresh writer => 4 bytes accepted and offset is 4");
   __CPROVER_assert(!hw0 || (G_bytes_requested == req0 && w->file_offset == off0), "header is written at most once");
   __CPROVER_assert(st == CARQUET_OK || !w->header_written, "failure => header not marked written (a later call retries)");
-  if (st == CARQUET_OK && !hw0) CQV_CANARY("header written now");
-  if (st != CARQUET_OK) CQV_CANARY("header write can fail");
+  if (!hw0 && G_io_failed == failed0) CQV_CANARY("header written now");
+  if (G_io_failed != failed0) CQV_CANARY("sink can fail during the header write");
   if (hw0) CQV_CANARY("header already written");
   CQV_CANARY("ensure_header harness end");
 }
@@ -315,9 +315,11 @@ void h_flush_row_group(void) {
   __CPROVER_assert(w->file == file0 && w->owns_file == owns0 && w->path == path0 && w->columns == cols0 &&
                    w->column_values_written == cvw0 && w->num_columns == nc0 && G_stream_open && G_arena_live,
                    "frame: stream, path, schema arrays and arena untouched");
-  if (st == CARQUET_OK && had_rg) CQV_CANARY("flush can succeed");
-  if (st == CARQUET_ERROR_FILE_WRITE) CQV_CANARY("flush can report a write failure");
-  if (st != CARQUET_OK) CQV_CANARY("flush can fail");
+  /* canaries depend on ghost state only (never on the code's return value) */
+  if (had_rg && G_bytes_requested != req0 && G_io_failed == failed0) CQV_CANARY("sink can accept the row group");
+  if (G_io_failed != failed0) CQV_CANARY("sink can fail during flush");
+  if (had_rg && G_bytes_requested == req0) CQV_CANARY("pending row group, nothing written (finalize failed or empty)");
+  if (!had_rg) CQV_CANARY("no pending row group");
   CQV_CANARY("flush_row_group harness end");
 }
 
@@ -331,7 +333,8 @@ void h_new_row_group(void) {
   __CPROVER_assert(st != CARQUET_OK || G_bytes_accepted - acc0 == G_bytes_requested - req0, "OK => every requested byte accepted");
   __CPROVER_assert(st != CARQUET_OK || (w->header_written && w->current_row_group == NULL), "OK => header written, no pending row group");
   __CPROVER_assert((w->current_row_group != NULL) == G_rg_live, "row-group writer ownership consistent");
-  if (st == CARQUET_OK) CQV_CANARY("new_row_group can succeed"); else CQV_CANARY("new_row_group can fail");
+  if (G_bytes_requested != req0 && G_io_failed == failed0) CQV_CANARY("sink can accept everything in new_row_group");
+  if (G_io_failed != failed0) CQV_CANARY("sink can fail during new_row_group");
   CQV_CANARY("new_row_group harness end");
 }
 
@@ -357,9 +360,10 @@ void h_close_io(void) {
   __CPROVER_assert(st != CARQUET_OK || G_bytes_accepted - acc0 == G_bytes_requested - req0, "close returns OK => every requested byte accepted");
   __CPROVER_assert(st != CARQUET_OK || !G_dirty, "close returns OK => accepted bytes were flushed successfully (fflush/fclose)");
   __CPROVER_assert(st != CARQUET_OK || G_bytes_requested - req0 >= 8, "close returns OK => footer length and magic were written");
-  if (st == CARQUET_OK) CQV_CANARY("close can return OK"); else CQV_CANARY("close can fail");
-  if (st == CARQUET_OK && owns) CQV_CANARY("close OK on an owned file");
-  if (st == CARQUET_OK && !owns) CQV_CANARY("close OK on a caller-owned FILE");
+  if (G_io_failed) CQV_CANARY("sink can fail during close");
+  if (!G_io_failed && !G_dirty && G_bytes_requested - req0 >= 8 && owns) CQV_CANARY("sink takes a whole file, owned stream");
+  if (!G_io_failed && !G_dirty && G_bytes_requested - req0 >= 8 && !owns) CQV_CANARY("sink takes a whole file, caller-owned FILE");
+  if (G_io_failed && G_fflush_calls > 0) CQV_CANARY("failure with fflush reached");
   CQV_CANARY("close io harness end");
 }
 
@@ -373,7 +377,7 @@ void h_close_resources(void) {
   __CPROVER_assert(G_fclose_calls == (owns ? 1u : 0u) && G_stream_open == !owns, "stream closed iff the writer owns it");
   __CPROVER_assert(G_buf_inits == G_buf_destroys, "metadata buffer destroyed on every path");
   __CPROVER_assert(G_remove_calls == 0, "close never removes the file");
-  if (st == CARQUET_OK) CQV_CANARY("close can return OK"); else CQV_CANARY("close can fail");
+  if (G_io_failed) CQV_CANARY("sink can fail during close"); else CQV_CANARY("sink can accept everything during close");
   if (owns) CQV_CANARY("owned"); else CQV_CANARY("not owned");
   if (had_rg) CQV_CANARY("pending row group");
   CQV_CANARY("close resources harness end");
